@@ -191,3 +191,7 @@ def run(ctx):
         for s in nd.succ[so[0][0]]:
             later |= nd.reachable(s)
         rep.check(r2, pops[0][0] not in later, 'nd_ns_repl:populate-then-options', 'set_options is not followed by populate', nd.loc(so[0][0]))
+
+    r3 = rep.rule('C05-R3', 'the converse: an ARP request / echo request / neighbour solicitation is left unanswered only for the reasons of the statement (other operation/type/code, target not handled, truncated message) - decided by enumerating the path facts of every None return', floor=4)
+    from rules import silence
+    silence.run_for(ctx, r3, ['layer_2::arp::repl', 'layer_4::icmpv4::repl', 'layer_4::icmpv6::repl', 'layer_4::icmpv6::nd_ns_repl'])
